@@ -1,8 +1,1749 @@
-//! C04 — not built yet.
+//! C04 — multiplexed calls each receive their own response, whatever the order.
+//!
+//! A scripted FAKE server (raw `TcpListener` for `repe::Client` / `repe::AsyncClient`,
+//! `tokio_tungstenite::accept_async` for `repe::WebSocketClient`; frames parsed and built with
+//! `oracle.rs`, never with the library) collects the requests that N callers issue concurrently
+//! from clones of ONE client, then answers in a scripted order: every permutation for N = 6,
+//! random permutations up to N = 64, with unknown-id frames, duplicated responses and (WebSocket
+//! only, subscriber attached) notify frames that reuse an in-flight id. Every request carries a
+//! unique token; every response body carries `{id, tok, k}` so a returned value tells whose
+//! response it was. `batch_json` is driven the same way. The verif-hooks probes are used to (a)
+//! inject seeded small delays at register / write / receive / deliver and (b) hash the order of the
+//! probe events of each scenario (distinct interleavings observed are reported as evidence).
+//!
+//! The verdict is computed offline over the recorded history of a scenario (`judge`).
+
 use crate::common::*;
 
+#[cfg(not(feature = "net"))]
 pub fn run(args: &Args) -> Report {
-    let mut rep = Report::new(args, "c04-stub", "stub");
-    rep.inconclusive("check not implemented");
+    let mut rep = Report::new(args, "c04-multiplex", "needs sockets (feature net)");
+    rep.inconclusive("c04 needs the `net` feature (sockets, websocket)");
     rep
+}
+
+#[cfg(feature = "net")]
+pub fn run(args: &Args) -> Report {
+    imp::run(args)
+}
+
+#[cfg(feature = "net")]
+mod imp {
+    use crate::common::*;
+    use crate::oracle::{self, SpecHeader};
+    use futures_util::{SinkExt, StreamExt};
+    use repe::{AsyncClient, Client, RepeError, WebSocketClient};
+    use serde_json::{Value, json};
+    use std::collections::{HashMap, HashSet};
+    use std::io::{Read, Write};
+    use std::os::fd::AsRawFd;
+    use std::sync::atomic::{AtomicBool, AtomicU64, Ordering};
+    use std::sync::{Arc, Mutex, mpsc};
+    use std::time::{Duration, Instant};
+    use tokio::runtime::Runtime;
+    use tokio_tungstenite::WebSocketStream;
+    use tokio_tungstenite::tungstenite::Message as WsMsg;
+
+    /// timeout handed to the `*_with_timeout` APIs: longer than the harness window, so a call
+    /// that is still waiting when the window closes is ended by the harness closing the socket
+    const API_TIMEOUT: Duration = Duration::from_secs(30);
+    /// generous bounded window for all calls of a scenario to return
+    const CALL_WINDOW: Duration = Duration::from_secs(12);
+    /// window for requests to reach the fake server
+    const REQ_WINDOW: Duration = Duration::from_secs(12);
+    const SENT_BASE: u64 = 0x7000_0000_0000_0000;
+    const MAX_N: usize = 64;
+
+    // ------------------------------------------------------------------ probe state
+
+    static LOG: Mutex<Vec<(u8, u64)>> = Mutex::new(Vec::new());
+    static SALT: AtomicU64 = AtomicU64::new(0);
+    static DELAYS: AtomicBool = AtomicBool::new(false);
+    static SENTINEL_SEEN: AtomicU64 = AtomicU64::new(0);
+    static DELAYS_APPLIED: AtomicU64 = AtomicU64::new(0);
+    static PROBE_HITS: [AtomicU64; 8] = [const { AtomicU64::new(0) }; 8];
+
+    const P_REGISTERED: u8 = 1;
+    const P_WRITE_LOCKED: u8 = 2;
+    const P_WRITTEN: u8 = 3;
+    const P_RECEIVED: u8 = 4;
+    const P_BEFORE_DELIVER: u8 = 5;
+    const P_TIMEOUT_REMOVE: u8 = 6;
+    const P_NAMES: [&str; 8] = ["", "registered", "write.locked", "written", "reader.received", "reader.before_deliver", "timeout.before_remove", ""];
+
+    fn mix(mut z: u64) -> u64 {
+        z = (z ^ (z >> 30)).wrapping_mul(0xBF58_476D_1CE4_E5B9);
+        z = (z ^ (z >> 27)).wrapping_mul(0x94D0_49BB_1331_11EB);
+        z ^ (z >> 31)
+    }
+
+    fn probe(point: &'static str, id: u64) {
+        let Some((_, suffix)) = point.split_once('.') else { return };
+        let code = match suffix {
+            "registered" => P_REGISTERED,
+            "write.locked" => P_WRITE_LOCKED,
+            "written" => P_WRITTEN,
+            "reader.received" => P_RECEIVED,
+            "reader.before_deliver" => P_BEFORE_DELIVER,
+            "timeout.before_remove" => P_TIMEOUT_REMOVE,
+            _ => return,
+        };
+        if !(point.starts_with("client.") || point.starts_with("async_client.") || point.starts_with("ws_client.")) {
+            return;
+        }
+        PROBE_HITS[code as usize].fetch_add(1, Ordering::Relaxed);
+        LOG.lock().unwrap_or_else(|e| e.into_inner()).push((code, id));
+        if id >= SENT_BASE {
+            if code == P_RECEIVED {
+                SENTINEL_SEEN.store(id, Ordering::SeqCst);
+            }
+            return;
+        }
+        if DELAYS.load(Ordering::Relaxed) {
+            // seeded: a function of (scenario salt, point, id) only
+            let h = mix(SALT.load(Ordering::Relaxed) ^ (code as u64).wrapping_mul(0x9E37_79B9_7F4A_7C15) ^ id.wrapping_mul(0xD6E8_FEB8_6659_FD93));
+            match h % 10 {
+                0 => {
+                    DELAYS_APPLIED.fetch_add(1, Ordering::Relaxed);
+                    std::thread::sleep(Duration::from_micros(20 + (h >> 8) % 280));
+                }
+                1 | 2 => {
+                    DELAYS_APPLIED.fetch_add(1, Ordering::Relaxed);
+                    let until = Instant::now() + Duration::from_micros(2 + (h >> 8) % 40);
+                    while Instant::now() < until {
+                        std::hint::spin_loop();
+                    }
+                }
+                3 => std::thread::yield_now(),
+                _ => {}
+            }
+        }
+    }
+
+    // ------------------------------------------------------------------ scenario description
+
+    #[derive(Clone, Copy, PartialEq, Eq, Hash, Debug)]
+    pub enum Kind {
+        B,
+        A,
+        W,
+    }
+    impl Kind {
+        fn name(self) -> &'static str {
+            match self {
+                Kind::B => "blocking",
+                Kind::A => "async",
+                Kind::W => "ws",
+            }
+        }
+    }
+
+    #[derive(Clone, Copy, PartialEq, Eq, Hash, Debug)]
+    enum Mode {
+        Calls,
+        Batch,
+    }
+    impl Mode {
+        fn name(self) -> &'static str {
+            match self {
+                Mode::Calls => "calls",
+                Mode::Batch => "batch",
+            }
+        }
+    }
+
+    #[derive(Clone, Copy, PartialEq, Eq, Hash, Debug)]
+    enum Api {
+        /// call_json (no timeout)
+        Json,
+        /// call_json_with_timeout
+        JsonT,
+        /// call_with_formats_and_timeout, returns the whole Message (header id / notify checked)
+        Msg,
+        /// notify_json: consumes a request id, expects no response
+        Notify,
+    }
+
+    #[derive(Clone, Copy, PartialEq, Eq, Hash, Debug)]
+    enum Unk {
+        Zero,
+        Huge(u32),
+        /// an id this connection will issue soon (max id seen + 1 + k): unknown *now*
+        Future(u8),
+        /// an id of an already completed call on this connection
+        Past,
+        /// the id of `slot`'s request plus 2^32: equal to an in-flight id in the low 32 bits
+        Alias32(usize),
+    }
+
+    #[derive(Clone, Copy, PartialEq, Eq, Hash, Debug)]
+    enum Step {
+        Resp(usize),
+        Dup(usize),
+        Unknown(Unk),
+        /// notify frame (notify=1) carrying the id of `slot`'s request (in flight when placed before
+        /// Resp(slot)) or, with None, an id nobody issued. WebSocket client only.
+        Notify(Option<usize>),
+    }
+
+    #[derive(Clone, Debug)]
+    struct Scn {
+        family: &'static str,
+        index: u64,
+        kind: Kind,
+        mode: Mode,
+        n: usize,
+        /// false: collect all N requests, then reply; true: reply to a step as soon as its request is there
+        eager: bool,
+        steps: Vec<Step>,
+        apis: Vec<Api>,
+        /// how reply frames are put on the wire: 0 one write per frame, 1 all in one write, 2 seeded splits
+        wmode: u8,
+        salt: u64,
+        delays: bool,
+    }
+
+    impl Scn {
+        fn identity(&self) -> (Kind, Mode, usize, bool, &[Step], &[Api], u8) {
+            (self.kind, self.mode, self.n, self.eager, &self.steps, &self.apis, self.wmode)
+        }
+        fn to_json(&self, seed: u64) -> Value {
+            json!({
+                "seed": seed, "family": self.family, "index": self.index, "client": self.kind.name(), "mode": self.mode.name(),
+                "n": self.n, "eager": self.eager, "wmode": self.wmode, "delays": self.delays, "salt": self.salt,
+                "steps": self.steps.iter().map(|s| format!("{s:?}")).collect::<Vec<_>>(),
+                "apis": self.apis.iter().map(|s| format!("{s:?}")).collect::<Vec<_>>(),
+            })
+        }
+    }
+
+    // ------------------------------------------------------------------ results of calls
+
+    #[derive(Clone, Debug)]
+    struct ErrInfo {
+        class: String,
+        text: String,
+        mismatch: Option<(u64, u64)>,
+    }
+
+    fn err_info(e: &RepeError) -> ErrInfo {
+        let (class, mismatch) = match e {
+            RepeError::ResponseIdMismatch { expected, got } => ("ResponseIdMismatch".to_string(), Some((*expected, *got))),
+            RepeError::Io(io) => (format!("Io.{:?}", io.kind()), None),
+            RepeError::ServerError { code, .. } => (format!("ServerError.{code:?}"), None),
+            other => {
+                let d = format!("{other:?}");
+                (d.split(|c: char| !c.is_alphanumeric()).next().unwrap_or("Error").to_string(), None)
+            }
+        };
+        ErrInfo { class, text: trunc(&e.to_string(), 200), mismatch }
+    }
+
+    #[derive(Clone, Debug)]
+    enum Res {
+        /// a returned response: header (id, notify, ec) when the API exposes it, and the JSON body
+        Body { hdr: Option<(u64, u8, u32)>, body: Value },
+        Err(ErrInfo),
+        NotifyOk,
+    }
+
+    #[derive(Clone, Debug)]
+    struct Out {
+        res: Res,
+        /// arrived only after the harness window closed and the socket was shut
+        late: bool,
+    }
+
+    enum ResMsg {
+        One(u64, usize, Res),
+        Batch(u64, Vec<Res>),
+    }
+
+    fn val_res(r: Result<Value, RepeError>) -> Res {
+        match r {
+            Ok(v) => Res::Body { hdr: None, body: v },
+            Err(e) => Res::Err(err_info(&e)),
+        }
+    }
+    fn msg_res(r: Result<repe::Message, RepeError>) -> Res {
+        match r {
+            Ok(m) => Res::Body {
+                hdr: Some((m.header.id, m.header.notify, m.header.ec)),
+                body: serde_json::from_slice(&m.body).unwrap_or_else(|_| json!({"unparsed_body_hex": hex_trunc(&m.body, 64)})),
+            },
+            Err(e) => Res::Err(err_info(&e)),
+        }
+    }
+    fn unit_res(r: Result<(), RepeError>) -> Res {
+        match r {
+            Ok(()) => Res::NotifyOk,
+            Err(e) => Res::Err(err_info(&e)),
+        }
+    }
+    fn panic_res(p: String) -> Res {
+        Res::Err(ErrInfo { class: format!("panic.{}", panic_site(&p)), text: trunc(&p, 200), mismatch: None })
+    }
+
+    fn pre_delay(us: u32) {
+        if us > 0 {
+            let until = Instant::now() + Duration::from_micros(us as u64);
+            while Instant::now() < until {
+                std::hint::spin_loop();
+            }
+        }
+    }
+
+    // ------------------------------------------------------------------ blocking worker pool
+
+    enum Job {
+        Call { scn: u64, cli: Client, slot: usize, api: Api, path: String, body: Value, pre_us: u32 },
+        Batch { scn: u64, cli: Client, reqs: Vec<(String, Value)> },
+    }
+
+    struct Pool {
+        txs: Vec<mpsc::Sender<Job>>,
+        res_tx: mpsc::Sender<ResMsg>,
+        res_rx: mpsc::Receiver<ResMsg>,
+    }
+
+    impl Pool {
+        fn new() -> Pool {
+            let (res_tx, res_rx) = mpsc::channel::<ResMsg>();
+            let mut txs = vec![];
+            for w in 0..=MAX_N {
+                let (tx, rx) = mpsc::channel::<Job>();
+                let out = res_tx.clone();
+                std::thread::Builder::new()
+                    .name(format!("c04-caller-{w}"))
+                    .spawn(move || {
+                        while let Ok(job) = rx.recv() {
+                            match job {
+                                Job::Call { scn, cli, slot, api, path, body, pre_us } => {
+                                    pre_delay(pre_us);
+                                    let r = catching(|| match api {
+                                        Api::Json => val_res(cli.call_json(&path, &body)),
+                                        Api::JsonT => val_res(cli.call_json_with_timeout(&path, &body, API_TIMEOUT)),
+                                        Api::Msg => {
+                                            let bytes = serde_json::to_vec(&body).unwrap();
+                                            msg_res(cli.call_with_formats_and_timeout(&path, 1, Some(&bytes), 2, API_TIMEOUT))
+                                        }
+                                        Api::Notify => unit_res(cli.notify_json(&path, &body)),
+                                    })
+                                    .unwrap_or_else(panic_res);
+                                    drop(cli);
+                                    let _ = out.send(ResMsg::One(scn, slot, r));
+                                }
+                                Job::Batch { scn, cli, reqs } => {
+                                    let r = catching(|| cli.batch_json_with_timeout(reqs, API_TIMEOUT).into_iter().map(val_res).collect::<Vec<_>>())
+                                        .unwrap_or_else(|p| vec![panic_res(p)]);
+                                    drop(cli);
+                                    let _ = out.send(ResMsg::Batch(scn, r));
+                                }
+                            }
+                        }
+                    })
+                    .expect("spawn caller thread");
+                txs.push(tx);
+            }
+            Pool { txs, res_tx, res_rx }
+        }
+    }
+
+    // ------------------------------------------------------------------ fake server side of a connection
+
+    enum Srv {
+        Tcp { s: std::net::TcpStream, buf: Vec<u8> },
+        Ws { ws: Box<WebSocketStream<tokio::net::TcpStream>> },
+        Closed,
+    }
+
+    fn quickack(fd: i32) {
+        let one: libc::c_int = 1;
+        unsafe {
+            libc::setsockopt(fd, libc::IPPROTO_TCP, libc::TCP_QUICKACK, &one as *const _ as *const libc::c_void, std::mem::size_of::<libc::c_int>() as u32);
+        }
+    }
+
+    impl Srv {
+        /// Next request frame from the client, parsed by the independent codec.
+        fn recv(&mut self, rt: &Runtime, deadline: Instant) -> Result<Option<oracle::Frame>, String> {
+            match self {
+                Srv::Closed => Err("server side already closed".into()),
+                Srv::Tcp { s, buf } => loop {
+                    if buf.len() >= oracle::HDR {
+                        let h = SpecHeader::decode(buf);
+                        if !h.consistent() {
+                            return Err(format!("request stream is not a REPE frame at a frame boundary: {h:?}"));
+                        }
+                        if let Some((h, ql, bl)) = oracle::valid_parse(buf, false) {
+                            let total = oracle::HDR + ql + bl;
+                            let f = oracle::Frame { header: h, query: buf[oracle::HDR..oracle::HDR + ql].to_vec(), body: buf[oracle::HDR + ql..total].to_vec(), at: 0 };
+                            buf.drain(..total);
+                            return Ok(Some(f));
+                        }
+                    }
+                    let mut tmp = [0u8; 16384];
+                    match s.read(&mut tmp) {
+                        Ok(0) => return Err("client closed the connection".into()),
+                        Ok(k) => buf.extend_from_slice(&tmp[..k]),
+                        Err(e) if matches!(e.kind(), std::io::ErrorKind::WouldBlock | std::io::ErrorKind::TimedOut | std::io::ErrorKind::Interrupted) => {
+                            if Instant::now() >= deadline {
+                                return Ok(None);
+                            }
+                        }
+                        Err(e) => return Err(format!("server read: {e}")),
+                    }
+                },
+                Srv::Ws { ws } => loop {
+                    let now = Instant::now();
+                    if now >= deadline {
+                        return Ok(None);
+                    }
+                    quickack(ws.get_ref().as_raw_fd());
+                    let left = deadline - now;
+                    let m = rt.block_on(async { tokio::time::timeout(left, ws.next()).await });
+                    match m {
+                        Err(_) => return Ok(None),
+                        Ok(None) => return Err("client closed the websocket".into()),
+                        Ok(Some(Err(e))) => return Err(format!("server ws read: {e}")),
+                        Ok(Some(Ok(WsMsg::Binary(b)))) => {
+                            return match oracle::valid_parse(&b, true) {
+                                Some((h, ql, bl)) => Ok(Some(oracle::Frame { header: h, query: b[oracle::HDR..oracle::HDR + ql].to_vec(), body: b[oracle::HDR + ql..oracle::HDR + ql + bl].to_vec(), at: 0 })),
+                                None => Err("websocket binary message is not exactly one REPE frame".into()),
+                            };
+                        }
+                        Ok(Some(Ok(WsMsg::Ping(_) | WsMsg::Pong(_)))) => continue,
+                        Ok(Some(Ok(other))) => return Err(format!("unexpected websocket message from client: {other:?}")),
+                    }
+                },
+            }
+        }
+
+        /// Put reply frames on the wire.
+        fn send(&mut self, rt: &Runtime, frames: &mut Vec<Vec<u8>>, wmode: u8, rng: &mut Rng) -> Result<(), String> {
+            if frames.is_empty() {
+                return Ok(());
+            }
+            let r = match self {
+                Srv::Closed => Err("server side already closed".into()),
+                Srv::Tcp { s, .. } => {
+                    let mut res = Ok(());
+                    match wmode {
+                        0 => {
+                            for f in frames.iter() {
+                                if let Err(e) = s.write_all(f) {
+                                    res = Err(format!("server write: {e}"));
+                                    break;
+                                }
+                            }
+                        }
+                        1 => {
+                            let all: Vec<u8> = frames.concat();
+                            res = s.write_all(&all).map_err(|e| format!("server write: {e}"));
+                        }
+                        _ => {
+                            let all: Vec<u8> = frames.concat();
+                            let mut at = 0;
+                            while at < all.len() {
+                                let k = (1 + rng.usize_below(180)).min(all.len() - at);
+                                if let Err(e) = s.write_all(&all[at..at + k]) {
+                                    res = Err(format!("server write: {e}"));
+                                    break;
+                                }
+                                at += k;
+                            }
+                        }
+                    }
+                    res
+                }
+                Srv::Ws { ws } => rt.block_on(async {
+                    if wmode == 1 {
+                        for f in frames.iter() {
+                            ws.feed(WsMsg::Binary(f.clone())).await.map_err(|e| format!("server ws write: {e}"))?;
+                        }
+                        ws.flush().await.map_err(|e| format!("server ws flush: {e}"))
+                    } else {
+                        for f in frames.iter() {
+                            ws.send(WsMsg::Binary(f.clone())).await.map_err(|e| format!("server ws write: {e}"))?;
+                        }
+                        Ok(())
+                    }
+                }),
+            };
+            frames.clear();
+            r
+        }
+
+        fn close(&mut self, rt: &Runtime) {
+            let old = std::mem::replace(self, Srv::Closed);
+            match old {
+                Srv::Tcp { s, .. } => {
+                    let _ = s.shutdown(std::net::Shutdown::Both);
+                }
+                Srv::Ws { ws } => {
+                    let _g = rt.enter();
+                    drop(ws);
+                }
+                Srv::Closed => {}
+            }
+        }
+    }
+
+    enum Cli {
+        B(Client),
+        A(AsyncClient),
+        W(WebSocketClient),
+    }
+
+    struct Conn {
+        kind: Kind,
+        cli: Cli,
+        srv: Srv,
+        sub: Option<tokio::sync::mpsc::UnboundedReceiver<repe::Message>>,
+        ids_seen: HashSet<u64>,
+        max_id: u64,
+        past_ids: Vec<u64>,
+        scenarios: u64,
+        requests: u64,
+    }
+
+    static BIND_FALLBACKS: AtomicU64 = AtomicU64::new(0);
+    static CONNECT_RETRIES: AtomicU64 = AtomicU64::new(0);
+
+    /// 127.0.0.1:0 as a rule. When other jobs on the machine have every ephemeral port of 127.0.0.1 parked in
+    /// TIME_WAIT (bind(0) then fails with EADDRINUSE) fall back to port 0 on another loopback address.
+    fn bind_loopback() -> Result<std::net::TcpListener, String> {
+        let mut last = String::new();
+        for attempt in 0..12u64 {
+            if attempt == 0 && std::env::var_os("C04_FORCE_BIND_FALLBACK").is_some() {
+                continue; // harness self-test of the fallback path
+            }
+            let host = if attempt == 0 { 1 } else { 2 + mix(attempt ^ (std::process::id() as u64) << 8 ^ BIND_FALLBACKS.load(Ordering::Relaxed)) % 250 };
+            match std::net::TcpListener::bind(format!("127.0.0.{host}:0")) {
+                Ok(l) => {
+                    if attempt > 0 {
+                        BIND_FALLBACKS.fetch_add(1, Ordering::Relaxed);
+                    }
+                    return Ok(l);
+                }
+                Err(e) => last = format!("bind 127.0.0.{host}:0: {e}"),
+            }
+        }
+        Err(last)
+    }
+
+    fn connect_retry(kind: Kind, rt: &Runtime) -> Result<Conn, String> {
+        let mut last = String::new();
+        for attempt in 0..40 {
+            match connect(kind, rt) {
+                Ok(c) => return Ok(c),
+                Err(e) => last = e,
+            }
+            CONNECT_RETRIES.fetch_add(1, Ordering::Relaxed);
+            std::thread::sleep(Duration::from_millis(100 + 20 * attempt));
+        }
+        Err(last)
+    }
+
+    fn connect(kind: Kind, rt: &Runtime) -> Result<Conn, String> {
+        let (cli, srv, sub) = match kind {
+            Kind::B | Kind::A => {
+                let l = bind_loopback()?;
+                let addr = l.local_addr().map_err(|e| e.to_string())?;
+                let cli = if kind == Kind::B {
+                    Cli::B(Client::connect(addr).map_err(|e| format!("Client::connect: {e}"))?)
+                } else {
+                    Cli::A(rt.block_on(AsyncClient::connect(addr)).map_err(|e| format!("AsyncClient::connect: {e}"))?)
+                };
+                let (s, _) = l.accept().map_err(|e| format!("accept: {e}"))?;
+                s.set_nodelay(true).ok();
+                s.set_read_timeout(Some(Duration::from_millis(25))).ok();
+                s.set_write_timeout(Some(Duration::from_secs(10))).ok();
+                (cli, Srv::Tcp { s, buf: Vec::new() }, None)
+            }
+            Kind::W => {
+                let (ws, cli) = rt.block_on(async {
+                    let l = bind_loopback()?;
+                    l.set_nonblocking(true).map_err(|e| e.to_string())?;
+                    let l = tokio::net::TcpListener::from_std(l).map_err(|e| format!("listener: {e}"))?;
+                    let url = format!("ws://{}", l.local_addr().map_err(|e| e.to_string())?);
+                    let acc = async {
+                        let (s, _) = l.accept().await.map_err(|e| format!("accept: {e}"))?;
+                        s.set_nodelay(true).ok();
+                        tokio_tungstenite::accept_async(s).await.map_err(|e| format!("accept_async: {e}"))
+                    };
+                    let con = async { WebSocketClient::connect(&url).await.map_err(|e| format!("WebSocketClient::connect: {e}")) };
+                    let (a, c) = tokio::time::timeout(Duration::from_secs(10), async { tokio::join!(acc, con) }).await.map_err(|_| "websocket connect timed out".to_string())?;
+                    Ok::<_, String>((a?, c?))
+                })?;
+                let sub = cli.subscribe_notifies().map_err(|_| "subscribe_notifies refused on a fresh client".to_string())?;
+                (Cli::W(cli), Srv::Ws { ws: Box::new(ws) }, Some(sub))
+            }
+        };
+        Ok(Conn { kind, cli, srv, sub, ids_seen: HashSet::new(), max_id: 0, past_ids: vec![], scenarios: 0, requests: 0 })
+    }
+
+    fn drop_conn(c: Conn, rt: &Runtime) {
+        let _g = rt.enter();
+        drop(c);
+    }
+
+    // ------------------------------------------------------------------ history of one scenario
+
+    #[derive(Clone, Debug)]
+    struct Req {
+        id: u64,
+        notify: u8,
+        slot: usize,
+        tok: String,
+        dup_id: bool,
+    }
+
+    #[derive(Clone, Debug)]
+    struct Sent {
+        step: Step,
+        id: u64,
+        notify: bool,
+        /// for notify frames: sequence number in this connection's notify stream
+        seq: u64,
+        /// the id belonged to a request that had been received and not yet answered
+        inflight: bool,
+    }
+
+    struct Hist {
+        tokens: Vec<String>,
+        reqs: Vec<Req>,
+        sent: Vec<Sent>,
+        outs: Vec<Option<Out>>,
+        batch_len: Option<usize>,
+        sub_items: Vec<(u64, u8, Value)>,
+        events: Vec<(u8, u64)>,
+        trouble: Option<String>,
+        sentinel_seen: bool,
+        unparsed_requests: Vec<String>,
+        /// the reply script was applied to fewer than N requests (callers went silent)
+        partial: bool,
+    }
+
+    struct Ctx<'a> {
+        rt: &'a Runtime,
+        pool: &'a Pool,
+        seed: u64,
+        sentinel_ctr: u64,
+        notify_seq: u64,
+        nonce: u64,
+    }
+
+    fn mk_frame(id: u64, notify: bool, query: &[u8], body: &Value) -> Vec<u8> {
+        let h = SpecHeader { spec: oracle::SPEC, version: 1, notify: notify as u8, id, query_format: 1, body_format: 2, ec: 0, ..Default::default() };
+        oracle::frame(h, query, &serde_json::to_vec(body).unwrap())
+    }
+
+    fn issue(conn: &Conn, ctx: &Ctx, scn: &Scn, tokens: &[String], rng: &mut Rng) {
+        let sidx = scn.index;
+        let body_of = |i: usize| json!({"tok": tokens[i], "slot": i});
+        let path_of = |i: usize| format!("/c04/s{i}");
+        match scn.mode {
+            Mode::Batch => {
+                let reqs: Vec<(String, Value)> = (0..scn.n).map(|i| (path_of(i), body_of(i))).collect();
+                match &conn.cli {
+                    Cli::B(c) => {
+                        let _ = ctx.pool.txs[MAX_N].send(Job::Batch { scn: sidx, cli: c.clone(), reqs });
+                    }
+                    Cli::A(c) => {
+                        let (c, tx) = (c.clone(), ctx.pool.res_tx.clone());
+                        ctx.rt.spawn(async move {
+                            let r = c.batch_json_with_timeout(reqs, API_TIMEOUT).await.into_iter().map(val_res).collect();
+                            drop(c);
+                            let _ = tx.send(ResMsg::Batch(sidx, r));
+                        });
+                    }
+                    Cli::W(c) => {
+                        let (c, tx) = (c.clone(), ctx.pool.res_tx.clone());
+                        ctx.rt.spawn(async move {
+                            let r = c.batch_json_with_timeout(reqs, API_TIMEOUT).await.into_iter().map(val_res).collect();
+                            drop(c);
+                            let _ = tx.send(ResMsg::Batch(sidx, r));
+                        });
+                    }
+                }
+            }
+            Mode::Calls => {
+                // issue in a seeded order so that slot number and start order are not correlated
+                let mut order: Vec<usize> = (0..scn.n).collect();
+                rng.shuffle(&mut order);
+                for i in order {
+                    let (path, body, api) = (path_of(i), body_of(i), scn.apis[i]);
+                    let pre_us = if scn.delays && rng.chance(1, 3) { rng.below(120) as u32 } else { 0 };
+                    match &conn.cli {
+                        Cli::B(c) => {
+                            let _ = ctx.pool.txs[i].send(Job::Call { scn: sidx, cli: c.clone(), slot: i, api, path, body, pre_us });
+                        }
+                        Cli::A(c) => {
+                            let (c, tx) = (c.clone(), ctx.pool.res_tx.clone());
+                            ctx.rt.spawn(async move {
+                                pre_delay(pre_us);
+                                let r = match api {
+                                    Api::Json => val_res(c.call_json(&path, &body).await),
+                                    Api::JsonT => val_res(c.call_json_with_timeout(&path, &body, API_TIMEOUT).await),
+                                    Api::Msg => {
+                                        let bytes = serde_json::to_vec(&body).unwrap();
+                                        msg_res(c.call_with_formats_and_timeout(&path, 1, Some(&bytes), 2, API_TIMEOUT).await)
+                                    }
+                                    Api::Notify => unit_res(c.notify_json(&path, &body).await),
+                                };
+                                drop(c);
+                                let _ = tx.send(ResMsg::One(sidx, i, r));
+                            });
+                        }
+                        Cli::W(c) => {
+                            let (c, tx) = (c.clone(), ctx.pool.res_tx.clone());
+                            ctx.rt.spawn(async move {
+                                pre_delay(pre_us);
+                                let r = match api {
+                                    Api::Json => val_res(c.call_json(&path, &body).await),
+                                    Api::JsonT => val_res(c.call_json_with_timeout(&path, &body, API_TIMEOUT).await),
+                                    Api::Msg => {
+                                        let bytes = serde_json::to_vec(&body).unwrap();
+                                        msg_res(c.call_with_formats_and_timeout(&path, 1, Some(&bytes), 2, API_TIMEOUT).await)
+                                    }
+                                    Api::Notify => unit_res(c.notify_json(&path, &body).await),
+                                };
+                                drop(c);
+                                let _ = tx.send(ResMsg::One(sidx, i, r));
+                            });
+                        }
+                    }
+                }
+            }
+        }
+    }
+
+    /// Move every caller result that is already available into the history. Returns how many slots have one.
+    fn drain_results(ctx: &Ctx, scn: &Scn, hist: &mut Hist, late: bool) -> usize {
+        while let Ok(m) = ctx.pool.res_rx.try_recv() {
+            store_result(scn, hist, m, late);
+        }
+        hist.outs.iter().filter(|o| o.is_some()).count()
+    }
+
+    fn store_result(scn: &Scn, hist: &mut Hist, m: ResMsg, late: bool) {
+        match m {
+            ResMsg::One(s, slot, res) if s == scn.index => {
+                if slot < hist.outs.len() && hist.outs[slot].is_none() {
+                    hist.outs[slot] = Some(Out { res, late });
+                }
+            }
+            ResMsg::Batch(s, v) if s == scn.index => {
+                hist.batch_len = Some(v.len());
+                for (i, res) in v.into_iter().enumerate() {
+                    if i < hist.outs.len() {
+                        hist.outs[i] = Some(Out { res, late });
+                    }
+                }
+            }
+            _ => {}
+        }
+    }
+
+    fn all_results_in(scn: &Scn, hist: &Hist) -> bool {
+        match scn.mode {
+            Mode::Batch => hist.batch_len.is_some(),
+            Mode::Calls => hist.outs.iter().all(|o| o.is_some()),
+        }
+    }
+
+    /// The fake server's part of a scenario.
+    fn serve(conn: &mut Conn, ctx: &mut Ctx, scn: &Scn, hist: &mut Hist, rng: &mut Rng, sentinel: u64) -> Result<(), String> {
+        let n = scn.n;
+        let mut id_of: Vec<Option<u64>> = vec![None; n];
+        let mut query_of: Vec<Vec<u8>> = vec![vec![]; n];
+        let mut answered = vec![false; n];
+        let deadline = Instant::now() + REQ_WINDOW;
+        let mut out: Vec<Vec<u8>> = vec![];
+
+        /// Ok(true): one more request recorded. Ok(false): nothing more is coming for now (a caller gave up
+        /// before sending, or the callers have been silent for QUIET while some requests are missing).
+        fn read_one(conn: &mut Conn, ctx: &Ctx, scn: &Scn, hist: &mut Hist, id_of: &mut [Option<u64>], query_of: &mut [Vec<u8>], deadline: Instant) -> Result<bool, String> {
+            const QUIET: Duration = Duration::from_millis(2500);
+            let started = Instant::now();
+            let mut early_failure: Option<Instant> = None;
+            let f = loop {
+                if let Some(f) = conn.srv.recv(ctx.rt, (Instant::now() + Duration::from_millis(40)).min(deadline))? {
+                    break f;
+                }
+                // nothing arrived for a moment: has a caller already given up without sending?
+                drain_results(ctx, scn, hist, false);
+                let gave_up = hist.batch_len.is_some() || hist.outs.iter().enumerate().any(|(i, o)| id_of[i].is_none() && matches!(o, Some(Out { res: Res::Err(_), .. })));
+                if gave_up {
+                    let since = *early_failure.get_or_insert_with(Instant::now);
+                    if since.elapsed() > Duration::from_millis(400) {
+                        return Ok(false);
+                    }
+                }
+                if !hist.reqs.is_empty() && started.elapsed() > QUIET {
+                    return Ok(false);
+                }
+                if Instant::now() >= deadline {
+                    return Err(format!("only {} of {} requests reached the fake server within {} s", hist.reqs.len(), scn.n, REQ_WINDOW.as_secs()));
+                }
+            };
+            conn.requests += 1;
+            let parsed: Option<(usize, String)> = serde_json::from_slice::<Value>(&f.body).ok().and_then(|v| Some((v.get("slot")?.as_u64()? as usize, v.get("tok")?.as_str()?.to_string())));
+            let dup_id = !conn.ids_seen.insert(f.header.id);
+            conn.max_id = conn.max_id.max(f.header.id);
+            match parsed {
+                Some((slot, tok)) if slot < id_of.len() && hist.tokens[slot] == tok && id_of[slot].is_none() => {
+                    id_of[slot] = Some(f.header.id);
+                    query_of[slot] = f.query.clone();
+                    hist.reqs.push(Req { id: f.header.id, notify: f.header.notify, slot, tok, dup_id });
+                    Ok(true)
+                }
+                _ => {
+                    hist.unparsed_requests.push(format!("id {} notify {} query {:?} body {}", f.header.id, f.header.notify, String::from_utf8_lossy(&f.query), hex_trunc(&f.body, 80)));
+                    Err("a request that does not belong to this scenario reached the fake server".into())
+                }
+            }
+        }
+
+        // `partial`: the callers went silent before all N requests were in (for instance a call was refused
+        // by the client before sending); the script is then applied to the requests that did arrive
+        let mut partial = false;
+        if !scn.eager {
+            while hist.reqs.len() < n && !partial {
+                partial = !read_one(conn, ctx, scn, hist, &mut id_of, &mut query_of, deadline)?;
+            }
+        }
+        for step in &scn.steps {
+            // the request this step refers to must have arrived
+            let need = match step {
+                Step::Resp(s) | Step::Dup(s) | Step::Notify(Some(s)) | Step::Unknown(Unk::Alias32(s)) => Some(*s),
+                _ => None,
+            };
+            if let Some(s) = need {
+                while id_of[s].is_none() && !partial {
+                    conn.srv.send(ctx.rt, &mut out, scn.wmode, rng)?;
+                    partial = !read_one(conn, ctx, scn, hist, &mut id_of, &mut query_of, deadline)?;
+                }
+                if id_of[s].is_none() {
+                    continue;
+                }
+            }
+            let all_in = hist.reqs.len() == n;
+            match *step {
+                Step::Resp(s) => {
+                    let id = id_of[s].unwrap();
+                    out.push(mk_frame(id, false, &query_of[s], &json!({"id": id, "tok": hist.tokens[s], "k": "resp"})));
+                    hist.sent.push(Sent { step: *step, id, notify: false, seq: 0, inflight: !answered[s] });
+                    answered[s] = true;
+                }
+                Step::Dup(s) => {
+                    let id = id_of[s].unwrap();
+                    out.push(mk_frame(id, false, &query_of[s], &json!({"id": id, "tok": hist.tokens[s], "k": "dup"})));
+                    hist.sent.push(Sent { step: *step, id, notify: false, seq: 0, inflight: !answered[s] });
+                }
+                Step::Unknown(u) => {
+                    let id = match u {
+                        Unk::Zero => 0,
+                        Unk::Huge(r) => (1u64 << 40) + r as u64,
+                        // only when every request of this scenario is in: otherwise "max id + 1" could be
+                        // the id of a call of this very scenario that is already registered
+                        Unk::Future(k) if all_in => conn.max_id + 1 + k as u64,
+                        Unk::Future(k) => (1u64 << 41) + k as u64,
+                        Unk::Alias32(s) => id_of[s].unwrap() + (1u64 << 32),
+                        Unk::Past => match conn.past_ids.len() {
+                            0 => (1u64 << 42) + 7,
+                            l => conn.past_ids[rng.usize_below(l)],
+                        },
+                    };
+                    out.push(mk_frame(id, false, b"/c04/unknown", &json!({"id": id, "tok": format!("unk-{}-{}", scn.index, hist.sent.len()), "k": "unk"})));
+                    hist.sent.push(Sent { step: *step, id, notify: false, seq: 0, inflight: false });
+                }
+                Step::Notify(target) => {
+                    let (id, inflight) = match target {
+                        Some(s) => (id_of[s].unwrap(), !answered[s]),
+                        None => ((1u64 << 43) + rng.below(1000), false),
+                    };
+                    ctx.notify_seq += 1;
+                    let seq = ctx.notify_seq;
+                    out.push(mk_frame(id, true, b"/c04/push", &json!({"id": id, "seq": seq, "tok": format!("ntf-{seq}"), "k": "notify"})));
+                    hist.sent.push(Sent { step: *step, id, notify: true, seq, inflight });
+                }
+            }
+            if scn.eager && rng.coin() {
+                conn.srv.send(ctx.rt, &mut out, scn.wmode, rng)?;
+            }
+        }
+        conn.srv.send(ctx.rt, &mut out, scn.wmode, rng)?;
+        while hist.reqs.len() < n {
+            // stop only when every missing request belongs to a caller that has already failed (it gave up
+            // before sending); a caller that succeeded has its request in the pipe
+            drain_results(ctx, scn, hist, false);
+            if all_results_in(scn, hist) && (0..n).filter(|i| id_of[*i].is_none()).all(|i| matches!(&hist.outs[i], Some(Out { res: Res::Err(_), .. }))) {
+                break;
+            }
+            let before = hist.reqs.len();
+            if read_one(conn, ctx, scn, hist, &mut id_of, &mut query_of, deadline)? {
+                // a request that arrived after its scripted steps were skipped is answered directly
+                let r = hist.reqs[before].clone();
+                if partial && r.notify == 0 && !answered[r.slot] {
+                    out.push(mk_frame(r.id, false, &query_of[r.slot], &json!({"id": r.id, "tok": r.tok, "k": "resp"})));
+                    hist.sent.push(Sent { step: Step::Resp(r.slot), id: r.id, notify: false, seq: 0, inflight: true });
+                    answered[r.slot] = true;
+                    conn.srv.send(ctx.rt, &mut out, 0, rng)?;
+                }
+            } else {
+                partial = true;
+            }
+        }
+        hist.partial = partial;
+        // sentinel: an unknown-id frame; once the client's reader announces it, every earlier frame of
+        // this scenario has been dispatched completely (the reader is sequential)
+        out.push(mk_frame(sentinel, false, b"/c04/sentinel", &json!({"id": sentinel, "tok": "sentinel", "k": "unk"})));
+        conn.srv.send(ctx.rt, &mut out, 0, rng)?;
+        Ok(())
+    }
+
+    fn run_scn(conn: &mut Conn, ctx: &mut Ctx, scn: &Scn) -> Hist {
+        let mut rng = Rng::new(ctx.seed ^ scn.salt.rotate_left(17) ^ 0xC04);
+        ctx.nonce += 1;
+        let kc = match scn.kind {
+            Kind::B => 'b',
+            Kind::A => 'a',
+            Kind::W => 'w',
+        };
+        let tokens: Vec<String> = (0..scn.n).map(|i| format!("{kc}{}-{}-{:x}", scn.index, i, mix(ctx.nonce ^ (i as u64) << 32) & 0xffff_ffff)).collect();
+        let mut hist = Hist {
+            tokens: tokens.clone(),
+            reqs: vec![],
+            sent: vec![],
+            outs: vec![None; scn.n],
+            batch_len: None,
+            sub_items: vec![],
+            events: vec![],
+            trouble: None,
+            sentinel_seen: false,
+            unparsed_requests: vec![],
+            partial: false,
+        };
+        // stale results of abandoned scenarios
+        while ctx.pool.res_rx.try_recv().is_ok() {}
+        LOG.lock().unwrap_or_else(|e| e.into_inner()).clear();
+        SALT.store(scn.salt, Ordering::Relaxed);
+        DELAYS.store(scn.delays, Ordering::Relaxed);
+        ctx.sentinel_ctr += 1;
+        let sentinel = SENT_BASE + ctx.sentinel_ctr;
+
+        issue(conn, ctx, scn, &tokens, &mut rng);
+        if let Err(e) = serve(conn, ctx, scn, &mut hist, &mut rng, sentinel) {
+            hist.trouble = Some(e);
+            conn.srv.close(ctx.rt);
+        }
+
+        // collect the callers' results: first inside the generous window, then (socket shut so that
+        // every waiting call is released) as "late"
+        // Waiting longer cannot change anything once the reader has gone past the sentinel and, for every
+        // call that has not returned, has consumed all frames carrying its id without reaching the deliver
+        // point: that call's only response is gone (decided on events, not on time).
+        let hopeless = |hist: &Hist| -> bool {
+            if SENTINEL_SEEN.load(Ordering::SeqCst) != sentinel || scn.mode == Mode::Batch {
+                return false;
+            }
+            let ev = LOG.lock().unwrap_or_else(|e| e.into_inner()).clone();
+            (0..scn.n).filter(|i| hist.outs[*i].is_none()).all(|i| match hist.reqs.iter().find(|r| r.slot == i) {
+                Some(r) if r.notify == 0 => {
+                    let frames = hist.sent.iter().filter(|s| s.id == r.id).count();
+                    let resp = hist.sent.iter().any(|s| s.id == r.id && matches!(s.step, Step::Resp(_)));
+                    let received = ev.iter().filter(|e| e.0 == P_RECEIVED && e.1 == r.id).count();
+                    let delivered = ev.iter().any(|e| e.0 == P_BEFORE_DELIVER && e.1 == r.id);
+                    resp && received >= frames && !delivered
+                }
+                _ => false,
+            })
+        };
+        let collect = |until: Instant, late: bool, hist: &mut Hist| {
+            while !all_results_in(scn, hist) {
+                let now = Instant::now();
+                if now >= until {
+                    break;
+                }
+                match ctx.pool.res_rx.recv_timeout((until - now).min(Duration::from_millis(150))) {
+                    Ok(m) => store_result(scn, hist, m, late),
+                    Err(mpsc::RecvTimeoutError::Timeout) => {
+                        if !late && hopeless(hist) {
+                            break;
+                        }
+                    }
+                    Err(_) => break,
+                }
+            }
+        };
+        let window = if hist.trouble.is_some() { Duration::from_secs(5) } else { CALL_WINDOW };
+        collect(Instant::now() + window, hist.trouble.is_some(), &mut hist);
+        if !all_results_in(scn, &hist) {
+            // window over: release whoever still waits, and remember that they were late
+            let until_sentinel = Instant::now() + Duration::from_millis(200);
+            while SENTINEL_SEEN.load(Ordering::SeqCst) != sentinel && Instant::now() < until_sentinel {
+                std::thread::sleep(Duration::from_millis(1));
+            }
+            hist.sentinel_seen = SENTINEL_SEEN.load(Ordering::SeqCst) == sentinel;
+            conn.srv.close(ctx.rt);
+            collect(Instant::now() + Duration::from_secs(6), true, &mut hist);
+        } else if hist.trouble.is_none() {
+            let until = Instant::now() + Duration::from_secs(10);
+            let mut spins = 0u32;
+            while SENTINEL_SEEN.load(Ordering::SeqCst) != sentinel && Instant::now() < until {
+                spins += 1;
+                if spins < 200 {
+                    std::thread::yield_now();
+                } else {
+                    std::thread::sleep(Duration::from_micros(50));
+                }
+            }
+            hist.sentinel_seen = SENTINEL_SEEN.load(Ordering::SeqCst) == sentinel;
+        }
+        DELAYS.store(false, Ordering::Relaxed);
+        if let Some(rx) = conn.sub.as_mut() {
+            while let Ok(m) = rx.try_recv() {
+                let v: Value = serde_json::from_slice(&m.body).unwrap_or_else(|_| json!({"unparsed_body_hex": hex_trunc(&m.body, 64)}));
+                hist.sub_items.push((m.header.id, m.header.notify, v));
+            }
+        }
+        hist.events = std::mem::take(&mut *LOG.lock().unwrap_or_else(|e| e.into_inner()));
+        for r in &hist.reqs {
+            if r.notify == 0 && conn.past_ids.len() < 64 {
+                conn.past_ids.push(r.id);
+            } else if r.notify == 0 {
+                let k = rng.usize_below(64);
+                conn.past_ids[k] = r.id;
+            }
+        }
+        conn.scenarios += 1;
+        hist
+    }
+
+    // ------------------------------------------------------------------ the oracle (offline over one history)
+
+    #[derive(Default)]
+    struct Verdict {
+        violations: Vec<(String, String)>,
+        inconclusive: Vec<String>,
+        ok_calls: u64,
+        timeouts: u64,
+        anomalies: bool,
+    }
+
+    fn judge(scn: &Scn, h: &Hist, stall_ms: u64) -> Verdict {
+        let mut v = Verdict::default();
+        let (k, m) = (scn.kind.name(), scn.mode.name());
+        let healthy = h.trouble.is_none() && h.sentinel_seen;
+        let id_of_slot: HashMap<usize, u64> = h.reqs.iter().map(|r| (r.slot, r.id)).collect();
+        let slot_of_tok: HashMap<&str, usize> = h.tokens.iter().enumerate().map(|(i, t)| (t.as_str(), i)).collect();
+
+        // ids issued on one connection are distinct
+        for r in &h.reqs {
+            if r.dup_id {
+                v.violations.push((format!("C04:{k}:duplicate-request-id"), format!("request id {} (slot {}, token {}) had already been used on this connection", r.id, r.slot, r.tok)));
+            }
+            let want_notify = scn.apis[r.slot] == Api::Notify;
+            if (r.notify != 0) != want_notify {
+                v.inconclusive.push(format!("request of slot {} arrived with notify={} (api {:?})", r.slot, r.notify, scn.apis[r.slot]));
+            }
+        }
+        if let Some(t) = &h.trouble {
+            v.inconclusive.push(format!("harness trouble in scenario {} #{} ({k}/{m}, n={}): {t}; {}", scn.family, scn.index, scn.n, h.unparsed_requests.join(" | ")));
+            v.anomalies = true;
+        }
+        if scn.mode == Mode::Batch {
+            if let Some(l) = h.batch_len {
+                if l != scn.n {
+                    v.violations.push((format!("C04:{k}:batch:result-count"), format!("batch_json of {} requests returned {l} results", scn.n)));
+                }
+            }
+        }
+
+        // who carried which token / id, to explain a missing response
+        let mut carried_by: HashMap<usize, usize> = HashMap::new(); // owner slot -> slot that returned it
+        for (i, o) in h.outs.iter().enumerate() {
+            if let Some(Out { res: Res::Body { body, .. }, .. }) = o {
+                if let Some(j) = body.get("tok").and_then(|t| t.as_str()).and_then(|t| slot_of_tok.get(t)) {
+                    if *j != i && body.get("k").and_then(|x| x.as_str()) != Some("notify") {
+                        carried_by.insert(*j, i);
+                    }
+                }
+            }
+            if let Some(Out { res: Res::Err(ErrInfo { mismatch: Some((_, got)), .. }), .. }) = o {
+                if let Some(r) = h.reqs.iter().find(|r| r.id == *got) {
+                    if r.slot != i {
+                        carried_by.insert(r.slot, i);
+                    }
+                }
+            }
+        }
+
+        for i in 0..scn.n {
+            let api = scn.apis[i];
+            let own = id_of_slot.get(&i).copied();
+            let who = format!("slot {i} (api {api:?}, request id {own:?}, token {})", h.tokens[i]);
+            let Some(out) = &h.outs[i] else {
+                v.inconclusive.push(format!("{k}/{m}: {who} produced no result inside the harness bound (stall {stall_ms} ms)"));
+                v.anomalies = true;
+                v.timeouts += 1;
+                continue;
+            };
+            if api == Api::Notify {
+                if let Res::Err(e) = &out.res {
+                    if healthy {
+                        v.inconclusive.push(format!("{k}: notify_json of {who} failed: {}", e.text));
+                    }
+                }
+                continue;
+            }
+            let timed_out = out.late || matches!(&out.res, Res::Err(e) if e.class == "Io.TimedOut");
+            if timed_out && h.trouble.is_none() {
+                v.timeouts += 1;
+                v.anomalies = true;
+                // logical evidence only
+                let resp_sent = own.map(|id| h.sent.iter().any(|s| s.id == id && matches!(s.step, Step::Resp(_)))).unwrap_or(false);
+                if let Some(j) = carried_by.get(&i) {
+                    v.violations.push((
+                        format!("C04:{k}:{m}:response-went-to-another-call"),
+                        format!("{who} never returned, its response was handed to slot {j} (request id {:?}); outcome of slot {j}: {}", id_of_slot.get(j), show_out(&h.outs[*j])),
+                    ));
+                } else if resp_sent && own.is_some() {
+                    let id = own.unwrap();
+                    let frames_with_id = h.sent.iter().filter(|s| s.id == id).count();
+                    let received = h.events.iter().filter(|e| e.0 == P_RECEIVED && e.1 == id).count();
+                    let delivered = h.events.iter().filter(|e| e.0 == P_BEFORE_DELIVER && e.1 == id).count();
+                    let registered_first = matches!((h.events.iter().position(|e| e.0 == P_REGISTERED && e.1 == id), h.events.iter().position(|e| e.0 == P_RECEIVED && e.1 == id)), (Some(a), Some(b)) if a < b);
+                    let timeout_removed = h.events.iter().any(|e| e.0 == P_TIMEOUT_REMOVE && e.1 == id);
+                    if received >= frames_with_id && delivered == 0 && !timeout_removed && h.sentinel_seen {
+                        v.violations.push((
+                            format!("C04:{k}:{m}:response-consumed-but-not-delivered"),
+                            format!("{who}: the client's reader consumed all {frames_with_id} frame(s) the server sent with id {id} (the request had reached the server before), went on to later frames without ever reaching the deliver point for it, so the call cannot receive its response (call registered before the frame was received: {registered_first}); it had not returned when the harness stopped waiting"),
+                        ));
+                    } else if delivered > 0 && stall_ms <= 1000 {
+                        v.violations.push((
+                            format!("C04:{k}:{m}:delivered-but-call-did-not-return"),
+                            format!("{who}: reader reached the deliver point for id {id} ({delivered}x) but the call did not return its response inside {} s (stall {stall_ms} ms); outcome {}", CALL_WINDOW.as_secs(), show_out(&h.outs[i])),
+                        ));
+                    } else {
+                        v.inconclusive.push(format!("{k}/{m}: {who} did not return inside {} s; reader received {received}/{frames_with_id} frames with its id, no evidence of mis-delivery (stall {stall_ms} ms)", CALL_WINDOW.as_secs()));
+                    }
+                } else {
+                    v.inconclusive.push(format!("{k}/{m}: {who} did not return inside {} s and its response was not sent (stall {stall_ms} ms)", CALL_WINDOW.as_secs()));
+                }
+                continue;
+            }
+            match &out.res {
+                Res::NotifyOk => v.inconclusive.push(format!("{who}: harness confusion, NotifyOk for a call")),
+                Res::Err(e) => {
+                    v.anomalies = true;
+                    if let Some((expected, got)) = e.mismatch {
+                        let owner = h.reqs.iter().find(|r| r.id == got).map(|r| format!("slot {}", r.slot)).unwrap_or_else(|| classify_foreign_id(h, got));
+                        v.violations.push((
+                            format!("C04:{k}:{m}:call-got-frame-of-other-id"),
+                            format!("{who} was handed a frame with id {got} (belongs to {owner}) and failed with ResponseIdMismatch(expected {expected}, got {got})"),
+                        ));
+                    } else if e.class == "Io.AlreadyExists" {
+                        // the client itself reports that the id it just allocated is still in flight
+                        v.violations.push((
+                            format!("C04:{k}:duplicate-request-id:reported-by-client"),
+                            format!("{who} was refused by the client with `{}` (io kind AlreadyExists): two calls on one connection were given the same request id", e.text),
+                        ));
+                    } else if own.is_none() && h.trouble.is_some() {
+                    } else if own.is_none() {
+                        v.inconclusive.push(format!("{k}/{m}: {who} failed with `{}` before its request reached the fake server", e.text));
+                    } else if healthy {
+                        v.violations.push((
+                            format!("C04:{k}:{m}:call-failed:{}", e.class),
+                            format!("{who} failed with `{}` although the fake server answered it and the connection stayed healthy (sentinel seen)", e.text),
+                        ));
+                    } else if h.trouble.is_none() {
+                        v.inconclusive.push(format!("{k}/{m}: {who} failed with `{}` on an unhealthy connection (sentinel not seen)", e.text));
+                    }
+                }
+                Res::Body { hdr, body } => {
+                    let kk = body.get("k").and_then(|x| x.as_str()).unwrap_or("?");
+                    let tok = body.get("tok").and_then(|x| x.as_str()).unwrap_or("?");
+                    let bid = body.get("id").and_then(|x| x.as_u64());
+                    let mut good = tok == h.tokens[i] && (kk == "resp" || kk == "dup") && bid == own && own.is_some();
+                    if let Some((hid, hnotify, hec)) = hdr {
+                        if Some(*hid) != own || *hnotify != 0 || *hec != 0 {
+                            good = false;
+                        }
+                    }
+                    if good {
+                        v.ok_calls += 1;
+                        continue;
+                    }
+                    v.anomalies = true;
+                    let what = match kk {
+                        "notify" => "notify-frame-satisfied-call".to_string(),
+                        "unk" => "unknown-id-frame-delivered".to_string(),
+                        "resp" | "dup" if slot_of_tok.contains_key(tok) && tok != h.tokens[i] => {
+                            if scn.mode == Mode::Batch { "misaligned".to_string() } else { "got-other-calls-response".to_string() }
+                        }
+                        _ if matches!(hdr, Some((_, nf, _)) if *nf != 0) => "notify-frame-satisfied-call".to_string(),
+                        _ => "foreign-response".to_string(),
+                    };
+                    let other = slot_of_tok.get(tok).map(|j| format!("slot {j} (request id {:?})", id_of_slot.get(j))).unwrap_or_else(|| format!("token {tok}"));
+                    v.violations.push((
+                        format!("C04:{k}:{m}:{what}"),
+                        format!("{who} returned header {hdr:?} body {body} which belongs to {other}; server sent: {}", show_sent(h)),
+                    ));
+                }
+            }
+        }
+
+        // notify stream: WebSocket subscriber gets exactly the notify frames, in order
+        if scn.kind == Kind::W {
+            let want: Vec<u64> = h.sent.iter().filter(|s| s.notify).map(|s| s.seq).collect();
+            let mut got: Vec<u64> = vec![];
+            for (id, nf, body) in &h.sub_items {
+                let kk = body.get("k").and_then(|x| x.as_str()).unwrap_or("?");
+                if kk != "notify" || *nf == 0 {
+                    v.violations.push((format!("C04:ws:subscriber-got-non-notify"), format!("the notify subscriber received a frame with id {id}, notify flag {nf}, body {body}")));
+                } else {
+                    got.push(body.get("seq").and_then(|x| x.as_u64()).unwrap_or(0));
+                }
+            }
+            if got != want {
+                v.anomalies = true;
+                let mut gs = got.clone();
+                gs.sort();
+                let mut ws = want.clone();
+                ws.sort();
+                if gs == ws {
+                    v.violations.push(("C04:ws:notify-reordered".into(), format!("subscriber received notify seq {got:?}, server pushed {want:?}")));
+                } else if got.iter().any(|g| !want.contains(g)) || has_dup(&got) {
+                    v.violations.push(("C04:ws:notify-duplicated-or-foreign".into(), format!("subscriber received notify seq {got:?}, server pushed {want:?}")));
+                } else if healthy {
+                    let missing: Vec<u64> = want.iter().filter(|w| !got.contains(w)).copied().collect();
+                    let inflight: Vec<bool> = missing.iter().map(|q| h.sent.iter().any(|s| s.notify && s.seq == *q && s.inflight)).collect();
+                    v.violations.push(("C04:ws:notify-not-delivered-to-subscriber".into(), format!("subscriber received notify seq {got:?}, server pushed {want:?}; missing {missing:?} (id was in flight: {inflight:?}); reader had processed everything (sentinel seen)")));
+                } else {
+                    v.inconclusive.push(format!("ws: subscriber got {got:?} of {want:?} on an unhealthy connection"));
+                }
+            }
+        } else if h.sent.iter().any(|s| s.notify) {
+            v.inconclusive.push("harness bug: notify frame scripted for a TCP client".into());
+        }
+        if !h.sentinel_seen && h.trouble.is_none() && v.violations.is_empty() && v.timeouts == 0 {
+            v.inconclusive.push(format!("{k}/{m}: sentinel frame not seen by the client's reader within 10 s (stall {stall_ms} ms)"));
+            v.anomalies = true;
+        }
+        v
+    }
+
+    fn has_dup(v: &[u64]) -> bool {
+        let mut s = HashSet::new();
+        v.iter().any(|x| !s.insert(*x))
+    }
+
+    fn classify_foreign_id(h: &Hist, id: u64) -> String {
+        match h.sent.iter().find(|s| s.id == id) {
+            Some(s) => format!("scripted frame {:?}", s.step),
+            None => "no frame of this scenario".into(),
+        }
+    }
+
+    fn show_out(o: &Option<Out>) -> String {
+        match o {
+            None => "no result".into(),
+            Some(Out { res: Res::Body { hdr, body }, late }) => format!("header {hdr:?} body {body} late={late}"),
+            Some(Out { res: Res::Err(e), late }) => format!("error `{}` late={late}", e.text),
+            Some(Out { res: Res::NotifyOk, .. }) => "notify ok".into(),
+        }
+    }
+
+    fn show_sent(h: &Hist) -> String {
+        let v: Vec<String> = h.sent.iter().take(24).map(|s| format!("{:?}#{}{}", s.step, s.id, if s.notify { "n" } else { "" })).collect();
+        format!("[{}{}]", v.join(", "), if h.sent.len() > 24 { ", …" } else { "" })
+    }
+
+    /// Hashes of the probe-event order of a scenario, ids made relative to the scenario's first id.
+    fn interleaving_hashes(h: &Hist) -> (u64, u64) {
+        let slot_of_id: HashMap<u64, usize> = h.reqs.iter().map(|r| (r.id, r.slot)).collect();
+        let rel = |id: u64| -> u64 {
+            match slot_of_id.get(&id) {
+                Some(s) => *s as u64,
+                None if id >= SENT_BASE => 10_000,
+                None => 20_000,
+            }
+        };
+        let full: Vec<(u8, u64)> = h.events.iter().map(|e| (e.0, rel(e.1))).collect();
+        let caller: Vec<(u8, u64)> = full.iter().filter(|e| e.0 <= P_WRITTEN).copied().collect();
+        (hash_of(&full), hash_of(&caller))
+    }
+
+    // ------------------------------------------------------------------ scenario generators
+
+    fn next_permutation(p: &mut [usize]) -> bool {
+        let n = p.len();
+        if n < 2 {
+            return false;
+        }
+        let mut i = n - 1;
+        while i > 0 && p[i - 1] >= p[i] {
+            i -= 1;
+        }
+        if i == 0 {
+            return false;
+        }
+        let mut j = n - 1;
+        while p[j] <= p[i - 1] {
+            j -= 1;
+        }
+        p.swap(i - 1, j);
+        p[i..].reverse();
+        true
+    }
+
+    /// Insert hostile extras into a reply order (a list of Resp steps).
+    fn add_extras(steps: &mut Vec<Step>, kind: Kind, call_slots: &[usize], count: usize, rng: &mut Rng) {
+        for _ in 0..count {
+            let pos_of = |steps: &Vec<Step>, s: usize| steps.iter().position(|x| *x == Step::Resp(s)).unwrap_or(0);
+            let choice = rng.below(if kind == Kind::W { 10 } else { 6 });
+            match choice {
+                0 | 1 | 2 if !call_slots.is_empty() => {
+                    let s = *rng.pick(call_slots);
+                    let p = pos_of(steps, s);
+                    let at = p + 1 + rng.usize_below(steps.len() - p);
+                    steps.insert(at, Step::Dup(s));
+                }
+                3..=5 | 0..=2 => {
+                    let u = match rng.below(6) {
+                        0 => Unk::Zero,
+                        1 => Unk::Huge(rng.below(1 << 20) as u32),
+                        2 | 3 => Unk::Future(rng.below(3) as u8),
+                        4 if !call_slots.is_empty() => Unk::Alias32(*rng.pick(call_slots)),
+                        _ => Unk::Past,
+                    };
+                    let at = rng.usize_below(steps.len() + 1);
+                    steps.insert(at, Step::Unknown(u));
+                }
+                6 | 7 | 8 if !call_slots.is_empty() => {
+                    // in flight: before the response of that slot
+                    let s = *rng.pick(call_slots);
+                    let p = pos_of(steps, s);
+                    let at = rng.usize_below(p + 1);
+                    steps.insert(at, Step::Notify(Some(s)));
+                }
+                _ => {
+                    if !call_slots.is_empty() && rng.coin() {
+                        // id no longer in flight
+                        let s = *rng.pick(call_slots);
+                        let p = pos_of(steps, s);
+                        let at = p + 1 + rng.usize_below(steps.len() - p);
+                        steps.insert(at, Step::Notify(Some(s)));
+                    } else {
+                        let at = rng.usize_below(steps.len() + 1);
+                        steps.insert(at, Step::Notify(None));
+                    }
+                }
+            }
+        }
+    }
+
+    fn blocking_batch_cap() -> usize {
+        // the blocking client's batch runs min(n, clamp(4 * parallelism, 1, 64)) workers; with more requests
+        // than workers a collect-all server would wait for requests that are only sent after replies
+        let p = std::thread::available_parallelism().map(|c| c.get()).unwrap_or(1);
+        p.saturating_mul(4).clamp(1, 64)
+    }
+
+    fn apis_for(mode: Mode, n: usize, with_notify: bool, rng: &mut Rng) -> Vec<Api> {
+        (0..n)
+            .map(|_| match mode {
+                Mode::Batch => Api::JsonT,
+                Mode::Calls => match rng.below(if with_notify { 8 } else { 6 }) {
+                    0 | 1 => Api::Json,
+                    2 | 3 => Api::JsonT,
+                    4 | 5 => Api::Msg,
+                    _ => Api::Notify,
+                },
+            })
+            .collect()
+    }
+
+    fn random_scn(index: u64, rng: &mut Rng, force_kind: Option<Kind>) -> Scn {
+        let kind = force_kind.unwrap_or(*rng.pick(&[Kind::B, Kind::A, Kind::W]));
+        let mode = if rng.chance(1, 3) { Mode::Batch } else { Mode::Calls };
+        let mut n = match rng.below(10) {
+            0..=3 => 2 + rng.usize_below(7),
+            4..=6 => 9 + rng.usize_below(24),
+            7 | 8 => 33 + rng.usize_below(32),
+            _ => MAX_N,
+        };
+        if kind == Kind::B && mode == Mode::Batch {
+            n = n.min(blocking_batch_cap());
+        }
+        let mut apis = apis_for(mode, n, true, rng);
+        if !apis.iter().any(|a| *a != Api::Notify) {
+            apis[0] = Api::JsonT;
+        }
+        let call_slots: Vec<usize> = (0..n).filter(|i| apis[*i] != Api::Notify).collect();
+        let mut order = call_slots.clone();
+        rng.shuffle(&mut order);
+        let mut steps: Vec<Step> = order.into_iter().map(Step::Resp).collect();
+        let extras = match rng.below(4) {
+            0 => 0,
+            1 => 1 + rng.usize_below(3),
+            _ => 1 + rng.usize_below(n.min(24)),
+        };
+        add_extras(&mut steps, kind, &call_slots, extras, rng);
+        Scn { family: "random", index, kind, mode, n, eager: rng.chance(2, 5), steps, apis, wmode: rng.below(3) as u8, salt: rng.next_u64(), delays: rng.chance(4, 5) }
+    }
+
+    // ------------------------------------------------------------------ stderr silencing
+
+    /// The library prints one line per dropped unknown-id frame; tens of thousands of them are scripted.
+    struct StderrSilencer {
+        saved: i32,
+    }
+    impl StderrSilencer {
+        fn new() -> StderrSilencer {
+            unsafe {
+                let saved = libc::dup(2);
+                let null = libc::open(c"/dev/null".as_ptr(), libc::O_WRONLY);
+                if saved >= 0 && null >= 0 {
+                    libc::dup2(null, 2);
+                }
+                if null >= 0 {
+                    libc::close(null);
+                }
+                StderrSilencer { saved }
+            }
+        }
+    }
+    impl Drop for StderrSilencer {
+        fn drop(&mut self) {
+            unsafe {
+                if self.saved >= 0 {
+                    libc::dup2(self.saved, 2);
+                    libc::close(self.saved);
+                }
+            }
+        }
+    }
+
+    // ------------------------------------------------------------------ the stage
+
+    struct Stage<'a> {
+        rep: Report,
+        ctx: Ctx<'a>,
+        conns: HashMap<Kind, Conn>,
+        hb: Heartbeat,
+        il_full: HashSet<u64>,
+        il_caller: HashSet<u64>,
+        il_by_kind: HashMap<Kind, HashSet<u64>>,
+        scripts: HashSet<u64>,
+        timeouts: u64,
+        connect_failures: u64,
+        deadline: Instant,
+        stop: Option<String>,
+        seed: u64,
+        max_scn_ms: u64,
+        /// replay: (family, index) of the one scenario to run
+        only: Option<(&'static str, u64)>,
+    }
+
+    impl<'a> Stage<'a> {
+        /// Run and judge one scenario (in replay mode: only the recorded one, many times with fresh delay
+        /// salts). Returns false when the stage must stop.
+        fn exec(&mut self, scn: &Scn) -> bool {
+            match self.only {
+                None => self.exec_one(scn),
+                Some((family, index)) if family == scn.family && index == scn.index => {
+                    let mut ok = self.exec_one(scn);
+                    for r in 1..400u64 {
+                        if !ok {
+                            break;
+                        }
+                        let mut again = scn.clone();
+                        again.salt = mix(scn.salt ^ r);
+                        again.delays = true;
+                        ok = self.exec_one(&again);
+                    }
+                    false
+                }
+                Some(_) => true,
+            }
+        }
+
+        fn exec_one(&mut self, scn: &Scn) -> bool {
+            if self.stop.is_some() {
+                return false;
+            }
+            if Instant::now() >= self.deadline {
+                self.stop = Some("stage time budget used up".into());
+                return false;
+            }
+            // connection: reuse, replace every 300 scenarios
+            let reuse = self.conns.get(&scn.kind).map(|c| c.scenarios < 300).unwrap_or(false);
+            if !reuse {
+                if let Some(old) = self.conns.remove(&scn.kind) {
+                    self.rep.count("connections_closed_after_reuse", 1);
+                    drop_conn(old, self.ctx.rt);
+                }
+                match connect_retry(scn.kind, self.ctx.rt) {
+                    Ok(c) => {
+                        self.rep.count(&format!("connections_{}", scn.kind.name()), 1);
+                        self.conns.insert(scn.kind, c);
+                    }
+                    Err(e) => {
+                        self.connect_failures += 1;
+                        self.rep.inconclusive(format!("could not set up a {} connection: {e}", scn.kind.name()));
+                        if self.connect_failures >= 3 {
+                            self.stop = Some("repeated connection set-up failures".into());
+                        }
+                        return self.stop.is_none();
+                    }
+                }
+            }
+            let mut conn = self.conns.remove(&scn.kind).unwrap();
+            let t0 = Instant::now();
+            self.hb.reset();
+            let hist = run_scn(&mut conn, &mut self.ctx, scn);
+            let stall = self.hb.max_gap_ms();
+            self.max_scn_ms = self.max_scn_ms.max(t0.elapsed().as_millis() as u64);
+            let v = judge(scn, &hist, stall);
+
+            // evidence
+            let rep = &mut self.rep;
+            rep.eval();
+            let k = scn.kind.name();
+            rep.count(&format!("scenarios_{k}_{}", scn.mode.name()), 1);
+            rep.count(&format!("scenarios_family_{}", scn.family), 1);
+            rep.count("requests_seen_by_fake_server", hist.reqs.len() as u64);
+            rep.count("calls_returned_own_response", v.ok_calls);
+            rep.count("frames_sent_by_fake_server", hist.sent.len() as u64 + 1);
+            for s in &hist.sent {
+                match s.step {
+                    Step::Resp(_) => {}
+                    Step::Dup(_) => rep.count("injected_duplicate_responses", 1),
+                    Step::Unknown(Unk::Future(_)) => rep.count("injected_unknown_id_future", 1),
+                    Step::Unknown(Unk::Past) => rep.count("injected_unknown_id_past", 1),
+                    Step::Unknown(Unk::Alias32(_)) => rep.count("injected_unknown_id_aliasing_inflight_low32", 1),
+                    Step::Unknown(_) => rep.count("injected_unknown_id_other", 1),
+                    Step::Notify(_) if s.inflight => rep.count("injected_notify_reusing_inflight_id", 1),
+                    Step::Notify(_) => rep.count("injected_notify_other_id", 1),
+                }
+            }
+            rep.count("notifies_received_by_subscriber", hist.sub_items.len() as u64);
+            rep.count("client_notify_requests_seen", hist.reqs.iter().filter(|r| r.notify != 0).count() as u64);
+            rep.count("probe_events_recorded", hist.events.len() as u64);
+            if scn.eager {
+                rep.count("scenarios_eager_replies", 1);
+                // did the reader really overlap callers that were still registering / writing?
+                let first_recv = hist.events.iter().position(|e| e.0 == P_RECEIVED);
+                let last_caller = hist.events.iter().rposition(|e| e.0 <= P_WRITTEN);
+                if let (Some(a), Some(b)) = (first_recv, last_caller) {
+                    if a < b {
+                        rep.count("scenarios_reader_overlapping_callers", 1);
+                    }
+                }
+            }
+            if hist.partial {
+                rep.count("scenarios_partial_request_wave", 1);
+            }
+            if scn.n > 6 {
+                rep.count("scenarios_n_above_6", 1);
+            }
+            let prev_max = rep.get_count("max_concurrent_calls");
+            if scn.n as u64 > prev_max {
+                rep.set("max_concurrent_calls", json!(scn.n));
+            }
+            let (full, caller) = interleaving_hashes(&hist);
+            self.il_full.insert(full);
+            self.il_caller.insert(caller);
+            self.il_by_kind.entry(scn.kind).or_default().insert(full);
+            self.scripts.insert(hash_of(&scn.identity()));
+            rep.distinct(&("script", scn.identity()));
+            rep.distinct(&("interleaving", scn.kind, full));
+            if rep.samples.len() < rep.max_samples && (scn.index % 977 == 3 || (scn.family == "random" && rep.samples.len() < 3 && hist.sent.len() > scn.n)) {
+                rep.sample(json!({
+                    "scenario": scn.to_json(self.seed),
+                    "request_ids_in_arrival_order": hist.reqs.iter().map(|r| json!([r.slot, r.id])).collect::<Vec<_>>(),
+                    "frames_sent": show_sent(&hist),
+                    "probe_events_first_40": hist.events.iter().take(40).map(|e| format!("{}:{}", P_NAMES[e.0 as usize], if e.1 >= SENT_BASE { "sentinel".to_string() } else { e.1.to_string() })).collect::<Vec<_>>(),
+                    "calls_ok": v.ok_calls,
+                }));
+            }
+            for (sig, detail) in v.violations {
+                let detail = format!("[{} #{} {k}/{} n={} eager={}] {detail}", scn.family, scn.index, scn.mode.name(), scn.n, scn.eager);
+                self.rep.violation(sig, detail, scn.to_json(self.seed));
+            }
+            for i in v.inconclusive {
+                self.rep.inconclusive(i);
+            }
+            self.timeouts += v.timeouts;
+            if v.anomalies || matches!(conn.srv, Srv::Closed) {
+                self.rep.count("connections_abandoned_after_anomaly", 1);
+                drop_conn(conn, self.ctx.rt);
+            } else {
+                self.conns.insert(scn.kind, conn);
+            }
+            if self.timeouts >= 3 {
+                self.stop = Some("three calls did not return inside the window; stopping early".into());
+            }
+            if self.rep.violations.len() >= 12 {
+                self.stop = Some("twelve distinct violations recorded; stopping early".into());
+            }
+            self.stop.is_none()
+        }
+    }
+
+    pub fn run(args: &Args) -> Report {
+        let rep = Report::new(
+            args,
+            "c04-multiplex",
+            "fake server (oracle codec) answers N concurrent calls issued from clones of one client in a scripted order: all 720 \
+             permutations for N=6 on each of blocking/async/WebSocket client, for plain calls and for batch_json; random orders up to \
+             N=64 with unknown-id (zero, huge, future, past) frames, duplicated responses, eager replies, split/coalesced writes and, \
+             WebSocket only, notify frames reusing in-flight ids with a subscriber attached; seeded delays at the verif-hooks probes; \
+             oracle: returned token/id == own, batch positional, ids distinct per connection, subscriber gets exactly the notify \
+             frames in order; distinct = reply scripts + probe-order interleavings",
+        );
+        let rt = match tokio::runtime::Builder::new_multi_thread().worker_threads(4).enable_all().thread_name("c04-rt").build() {
+            Ok(rt) => rt,
+            Err(e) => {
+                let mut rep = rep;
+                rep.inconclusive(format!("tokio runtime: {e}"));
+                return rep;
+            }
+        };
+        let pool = Pool::new();
+        let budget = if args.thorough() { Duration::from_secs(420) } else { Duration::from_secs(38) };
+        let silencer = StderrSilencer::new();
+        repe::verif_hooks::set_probe(Some(Arc::new(probe)));
+        let _ = take_last_panic();
+
+        let mut st = Stage {
+            rep,
+            ctx: Ctx { rt: &rt, pool: &pool, seed: args.seed, sentinel_ctr: 0, notify_seq: 0, nonce: args.seed.wrapping_mul(0x9E37_79B9_7F4A_7C15) },
+            conns: HashMap::new(),
+            hb: Heartbeat::start(),
+            il_full: HashSet::new(),
+            il_caller: HashSet::new(),
+            il_by_kind: HashMap::new(),
+            scripts: HashSet::new(),
+            timeouts: 0,
+            connect_failures: 0,
+            deadline: Instant::now() + budget,
+            stop: None,
+            seed: args.seed,
+            max_scn_ms: 0,
+            only: None,
+        };
+        // --replay <file with the replay JSON of a violation>: regenerate the same scenarios from the seed and
+        // execute only the recorded one, 400 times with different delay salts
+        if let Some(path) = &args.replay {
+            let v: Option<Value> = std::fs::read_to_string(path).ok().and_then(|t| serde_json::from_str(&t).ok());
+            match v.as_ref().and_then(|v| Some((v.get("family")?.as_str()?.to_string(), v.get("index")?.as_u64()?, v.get("seed")?.as_u64()?))) {
+                Some((fam, idx, seed)) if seed == args.seed => {
+                    let fam = ["perm6", "perm6+extras", "random"].into_iter().find(|f| *f == fam).unwrap_or("random");
+                    st.only = Some((fam, idx));
+                    st.rep.set("replay_of", json!({"family": fam, "index": idx}));
+                }
+                Some((_, _, seed)) => st.rep.inconclusive(format!("replay file was recorded with --seed {seed}; pass the same seed")),
+                None => st.rep.inconclusive("replay file is not a C04 replay object {seed, family, index, ..}"),
+            }
+        }
+        let mut rng = Rng::new(args.seed ^ 0xC04_C04);
+        let mut index = 0u64;
+
+        // replay of one recorded scenario family/index is done by re-running with the same seed: scenario
+        // generation is a pure function of (seed, family, index)
+
+        // (a) exhaustive: every reply order for 6 concurrent calls, each client kind, calls and batch
+        let reps = args.budget(2, 20).max(1);
+        let mut perm_done: HashMap<String, u64> = HashMap::new();
+        'outer: for rep_i in 0..reps {
+            for kind in [Kind::B, Kind::A, Kind::W] {
+                for mode in [Mode::Calls, Mode::Batch] {
+                    let mut p: Vec<usize> = (0..6).collect();
+                    let mut r = rng.fork(rep_i * 100 + kind as u64 * 10 + mode as u64);
+                    loop {
+                        index += 1;
+                        let mut steps: Vec<Step> = p.iter().map(|s| Step::Resp(*s)).collect();
+                        let apis = apis_for(mode, 6, false, &mut r);
+                        let (eager, wmode) = if rep_i == 0 { (false, 0) } else { (r.chance(1, 3), r.below(3) as u8) };
+                        if rep_i > 0 {
+                            let extras = r.usize_below(4);
+                            add_extras(&mut steps, kind, &[0, 1, 2, 3, 4, 5], extras, &mut r);
+                        }
+                        let scn = Scn { family: if rep_i == 0 { "perm6" } else { "perm6+extras" }, index, kind, mode, n: 6, eager, steps, apis, wmode, salt: r.next_u64(), delays: rep_i > 0 || r.coin() };
+                        if !st.exec(&scn) {
+                            break 'outer;
+                        }
+                        *perm_done.entry(format!("{}_{}", kind.name(), mode.name())).or_default() += 1;
+                        if !next_permutation(&mut p) {
+                            break;
+                        }
+                    }
+                }
+            }
+        }
+        let complete = perm_done.len() == 6 && perm_done.values().all(|c| *c == 720 * reps);
+        st.rep.set("perm6_orders_run_per_client_and_mode", json!(perm_done));
+        st.rep.set("perm6_repetitions", json!(reps));
+        st.rep.set("small_scope_exhaustive", json!(complete));
+        st.rep.exhaustive = Some(false);
+
+        // (b) random: N up to 64, hostile extras, eager replies
+        let n_random = args.budget(1500, 30000);
+        for i in 0..n_random {
+            index += 1;
+            let mut r = rng.fork(0xBEEF_0000 + i);
+            let scn = random_scn(index, &mut r, None);
+            if !st.exec(&scn) {
+                break;
+            }
+        }
+
+        repe::verif_hooks::set_probe(None);
+        let replaying = st.only.is_some();
+        let Stage { mut rep, conns, hb, il_full, il_caller, il_by_kind, scripts, stop, timeouts, max_scn_ms, .. } = st;
+        for (_, c) in conns {
+            drop_conn(c, &rt);
+        }
+        drop(silencer);
+        rep.set("distinct_interleavings", json!(il_full.len()));
+        rep.set("distinct_caller_side_interleavings", json!(il_caller.len()));
+        rep.set("distinct_interleavings_by_client", json!(il_by_kind.iter().map(|(k, v)| (k.name().to_string(), v.len())).collect::<HashMap<_, _>>()));
+        rep.set("distinct_reply_scripts", json!(scripts.len()));
+        rep.set("probe_delays_applied", json!(DELAYS_APPLIED.load(Ordering::Relaxed)));
+        rep.set("probe_hits", json!((1..=6).map(|i| (P_NAMES[i].to_string(), PROBE_HITS[i].load(Ordering::Relaxed))).collect::<HashMap<_, _>>()));
+        rep.set("calls_timed_out", json!(timeouts));
+        rep.set("slowest_scenario_ms", json!(max_scn_ms));
+        rep.set("blocking_batch_worker_cap", json!(blocking_batch_cap()));
+        rep.set("harness_bind_fallbacks_other_loopback_address", json!(BIND_FALLBACKS.load(Ordering::Relaxed)));
+        rep.set("harness_connect_retries", json!(CONNECT_RETRIES.load(Ordering::Relaxed)));
+        if let Some(p) = take_last_panic() {
+            rep.set("last_panic_seen", json!(p));
+        }
+        drop(hb);
+        if let Some(why) = &stop {
+            rep.set("stopped_early", json!(why));
+        }
+        if replaying {
+            // nothing more to say: the counters describe the repetitions of the one scenario
+        } else if rep.violations.is_empty() {
+            match &stop {
+                // running out of time in the random part only shortens the sample
+                Some(why) if why.contains("time budget") && complete => {}
+                Some(why) => rep.inconclusive(format!("stage stopped early: {why}")),
+                None if !complete => rep.inconclusive("the exhaustive N=6 part did not complete"),
+                None => {}
+            }
+        }
+        if rep.evaluations == 0 {
+            rep.inconclusive("no scenario was executed");
+        }
+        // leave worker threads to die with the process; the runtime is shut down without waiting
+        rt.shutdown_timeout(Duration::from_secs(2));
+        rep
+    }
 }
